@@ -273,7 +273,11 @@ def stream_programs(ctx: Ctx) -> Stream:
 			break
 		if i % 50 == 49:
 			sess = Session(ctx)
-		src, _, _, _ = c03_progs.generate(random.Random(rng.random()), allow_hetero=rng.random() < 0.3, modelled=True)
+		try:
+			src, _, _, _ = c03_progs.generate(random.Random(rng.random()), allow_hetero=rng.random() < 0.3, modelled=True)
+		except Exception:  # noqa: BLE001 - the harness's own generator: counted as skipped, never a crash of the check
+			skipped += 1
+			continue
 		try:
 			with cpu_budget(TRANP_BUDGET_S):
 				case = c03_prog_stream.program_case(sess, src)
@@ -372,9 +376,9 @@ def stream_operators(ctx: Ctx) -> Stream:
 			break
 		g = c03_progs.ProgGen(random.Random(rng.random()))
 		g.known_rate = 1.0     # the listed forms are what the model has to reproduce too
-		d, b = g.operator_block()
-		src = '\n'.join(d[2:]) + '\n\n\ndef main() -> None:\n' + '\n'.join(b) + '\n'
 		try:
+			d, b = g.operator_block()
+			src = '\n'.join(d[2:]) + '\n\n\ndef main() -> None:\n' + '\n'.join(b) + '\n'
 			case = operator_case(sess, src)
 		except (Exception, CaseTimeout):  # noqa: BLE001 - a program tranp cannot load / an annotation outside the driver's vocabulary: not a case
 			case = None
@@ -465,9 +469,9 @@ def stream_generic_attrs(ctx: Ctx) -> Stream:
 		if i >= 3 and dl.over():
 			break
 		g = c03_progs.ProgGen(random.Random(rng.random()))
-		d, b = g.generic_deep_block()
-		src = 'from typing import Generic, TypeVar\n' + '\n'.join(d) + '\n\n\ndef main(a: int, p: bool, s: str, b: float) -> None:\n' + '\n'.join(b) + '\n'
 		try:
+			d, b = g.generic_deep_block()
+			src = 'from typing import Generic, TypeVar\n' + '\n'.join(d) + '\n\n\ndef main(a: int, p: bool, s: str, b: float) -> None:\n' + '\n'.join(b) + '\n'
 			case = generic_attr_case(sess, src)
 		except (Exception, CaseTimeout):  # noqa: BLE001 - a program tranp cannot load / a form outside the driver's vocabulary: not a case
 			case = None
@@ -921,12 +925,16 @@ def search_typed_programs(ctx: Ctx) -> SearchResult:
 	sess = Session(ctx)
 	seen: set[str] = set()
 	dl = Deadline(ctx, 40, 500)
-	for pi in range(ctx.scale(12, 250)):
+	for pi in range(ctx.scale(10, 250)):
 		if pi >= 6 and dl.over():
 			break
 		if pi % 40 == 39:
 			sess = Session(ctx)
-		src, entry, args, hist = c03_progs.generate(random.Random(rng.random()), allow_hetero=rng.random() < 0.7)
+		try:
+			src, entry, args, hist = c03_progs.generate(random.Random(rng.random()), allow_hetero=rng.random() < 0.7)
+		except Exception as e:  # noqa: BLE001 - a failure of the harness's own generator is not a case (counted, never a crash of the check)
+			res.histogram[f'skipped:generator:{type(e).__name__}'] = res.histogram.get(f'skipped:generator:{type(e).__name__}', 0) + 1
+			continue
 		for k, v in hist.items():
 			res.histogram[f'feature:{k}'] = res.histogram.get(f'feature:{k}', 0) + v
 		seen.add(src)
@@ -948,10 +956,14 @@ def search_order(ctx: Ctx) -> SearchResult:
 	sess_a, sess_b = Session(ctx), Session(ctx)
 	dl = Deadline(ctx, 25, 300)
 	seen: set[str] = set()
-	for pi in range(ctx.scale(4, 40)):
+	for pi in range(ctx.scale(3, 40)):
 		if pi >= 2 and dl.over():
 			break
-		src, _, _, _ = c03_progs.generate(random.Random(rng.random()), allow_hetero=False)
+		try:
+			src, _, _, _ = c03_progs.generate(random.Random(rng.random()), allow_hetero=False)
+		except Exception as e:  # noqa: BLE001 - the harness's own generator: counted, never a crash of the check
+			res.histogram[f'skipped:generator:{type(e).__name__}'] = res.histogram.get(f'skipped:generator:{type(e).__name__}', 0) + 1
+			continue
 		seen.add(src)
 		answers: list[dict[Any, str]] = []
 		try:
@@ -1041,7 +1053,7 @@ PARTIAL = {
 		'session independence for all expressions; template substitution of list.pop for all element types',
 	'correspondence_only': 'that the model IS the code: ProceduralResolver handlers, try_operation, TemplateManipulator path matching (stream infer, shared sessions = history), try_operation / each_binary_operator on user classes (stream infer-operators), on_spread / on_list over spread items (stream infer-spread), templates.Class.prop for attributes of user generic classes (stream infer-generic-attrs), member lookup through the inheritance chain, on_relay, constructors, IteratorTrait, declaration typing of whole function bodies (stream infer-programs); CPython semantics of the core (stream pytype)',
 	'modelled_separately': 'operators on instances of user classes and spread items are modelled beside the expression model (Model/InferOps.lean: foldBinAny, onSpread; streams infer-operators, infer-spread), not as constructors of Expr: sound_conf does not range over them, user_operator_* / user_chain_type / spread_* do',
-	'search_only': 'that the class-scope visibility rule equals CPython\'s scoping (LEGB) — the Lean side states the rule on C08\'s Scope model and checks it on the nested-class program, the equality with CPython is exhibited by the recorder search (shadowing through nested classes); diamond-shaped hierarchies (chainOf is the depth-first walk of the code, not C3), Enum, user generic FUNCTIONS and methods, attributes typed by a type variable read on DESCENDANTS of a generic class (attributes read on an instance of the generic class itself: stream infer-generic-attrs + generic_attr_partial; query-order / session independence of every answer: search_order) (generic_chain_block; two known findings for METHODS there) (the template port is proved for stub methods; the position rule of 68f934e is checked on examples), nested classes, imports, resolve_unknown laziness, while/try/with, augmented and attribute assignments',
+	'search_only': 'that the class-scope visibility rule equals CPython\'s scoping (LEGB) — the Lean side states the rule on C08\'s Scope model and checks it on the nested-class program, the equality with CPython is exhibited by the recorder search (shadowing through nested classes); diamond-shaped hierarchies (chainOf is the depth-first walk of the code, not C3), Enum, user generic FUNCTIONS and methods, attributes typed by a type variable read on DESCENDANTS of a generic class (attributes read on an instance of the generic class itself: stream infer-generic-attrs + generic_attr_partial; query-order / session independence of every answer: search_order) (generic_chain_block; two known findings for METHODS there) (the template port is proved for stub methods; the position rule of 68f934e is checked on examples), nested classes, imports, resolve_unknown laziness, type aliases (as element / value / parameter types, destructured by for statements, comprehensions and assignments: alias_block, corpus 52), factory classmethods of generic classes called on the bare / subscripted class (classmethod_block, corpus 53), while/try/with, augmented and attribute assignments',
 	'assumed_of_callees (sound_lambda_param)': 'a callee applies a callback declared Callable[[A...], R] to values of the types A (hypothesis ArgsConf; the typing obligation of the callee body, exhibited by the recorder search which observes the parameters inside lambda bodies); discharged for immediate calls',
 	'assumed_of_user_code (user operators)': 'pyUserOpTy: an operator method returns a value of its declared type, and no class declares a REFLECTED method for class operands with another result type than the forward method (CPython asks a subclass operand first only through a reflected method); hierarchies are tree-shaped',
 	'assumed_of_user_code (WorldConf)': 'constructor / method / property / class-variable / __next__ results conform to their DECLARED types (each method body\'s own typing obligation; method bodies are typed statement by statement by sound_decl / sound_conf but not executed by the model)',
@@ -1054,7 +1066,7 @@ ASSUMPTIONS = [
 	'at most one ill-typed atom per generated expression (error precedence between two faults inside a comprehension is not modelled)',
 	'outside the quantifier (not generated by the search; the infer stream still pins what the code answers): programs CPython rejects at run time although the stub accepts them (a | 1.5, a << 1.5, "s" & a: not well-typed); operations the stub library does not declare (list + list, bool ^ bool, float % bool, str * bool, iteration over str / tuple, list(str)): tranp refuses them with OperationNotAllowed / UnresolvedSymbol = outside the supported subset; assigning the result of list.remove (typed T_Value by the stub, None in CPython: Python type checkers reject the use of that value)',
 	'pytype domain: |int| < 2^50, finite floats of moderate magnitude, containers up to 64 items, ASCII strings (enforced at run time by a checker around every intermediate value; outside cases are discarded, not compared)',
-	'search oracle: only determined run-time types are compared (an empty container among the items of a container counts as an instance of its siblings\' type: [[], [1]] is a list of int lists); the value of an expression statement is not compared; type arguments of user generics are erased at run time and not compared; instances of a subclass are accepted for the declared base class',
+	'search oracle: a type printed through an alias (`P=tuple<int, str>`) is read as the aliased type; only determined run-time types are compared (an empty container among the items of a container counts as an instance of its siblings\' type: [[], [1]] is a list of int lists); the value of an expression statement is not compared; type arguments of user generics are erased at run time and not compared; instances of a subclass are accepted for the declared base class',
 ]
 
 TRUSTED = [
